@@ -103,6 +103,18 @@ package rules
 //     (UpdateTrafficGate → updateObject(kind, namespace, entity)); a live map reached through an
 //     accessor/local is identified by its receiver expression.
 //
+// Third robustness set (/verif/preserving/C20/r9..r12, C11/r10, C11/r11 → all exit 0; detection re-checked with
+// 15 mutants on top of them, script /tmp/vw/C20/out/mutants10.py):
+//   - tc.mutex at the removal of a namespace may be held any number (≤3) of non-locking "…Locked" helpers up;
+//   - Range probes / drains may be closures bound once to a named local; a zero test made before the probe
+//     runs is forgotten when the probe runs;
+//   - the three classification maps may travel from the diff function to the caller as positional (or named)
+//     results before they are handed to the notification;
+//   - the snapshot channel may be read through a local defined once from the field;
+//   - fields are resolved by role (type), the name being a tie-breaker: the entity maps of ObjectRegistry /
+//     ObjectEntityWatcher, the event channel, the snapshot channel (also inside a sub-struct), the
+//     TrafficController mutex (Mutex or RWMutex) and namespaces map.
+//
 // Known not to be caught (not claimed): TrafficController.Create* for an already existing name;
 // dropping the watcher.filter test; Update loop before Create loop; anything inside a kind's own
 // Init/Inherit/Close.
@@ -909,4 +921,112 @@ func c20Reach(f *flow.Func, depth int) ([]*flow.Func, []types.Object) {
 		out = append(out, g)
 	}
 	return out, wrappers
+}
+
+// ---------------------------------------------------------------------------------------
+// fields by role (type), the current name being only a tie-breaker: an unexported field may be
+// renamed or moved into a sub-struct of the same type without losing the anchor
+
+// c20RoleField finds in struct rel.typ the field whose type satisfies match (one level into
+// struct-typed fields of the same package when nested). The field called name wins when it
+// matches; otherwise the match must be unique.
+func c20RoleField(c *core.Ctx, rel, typ, name, role string, nested bool, match func(types.Type) bool) *types.Var {
+	n := namedType(c, rel, typ)
+	if n == nil {
+		return nil
+	}
+	st, ok := n.Underlying().(*types.Struct)
+	if !ok {
+		c.Errorf("anchor: %s.%s is not a struct", rel, typ)
+		return nil
+	}
+	var found []*types.Var
+	var walk func(st *types.Struct, depth int)
+	walk = func(st *types.Struct, depth int) {
+		for i := 0; i < st.NumFields(); i++ {
+			fld := st.Field(i)
+			if match(fld.Type()) {
+				found = append(found, fld)
+				continue
+			}
+			if nested && depth == 0 {
+				t := fld.Type()
+				if p, ok := t.(*types.Pointer); ok {
+					t = p.Elem()
+				}
+				if nn, ok := t.(*types.Named); ok && nn.Obj().Pkg() != nil && nn.Obj().Pkg().Path() == Mod+rel {
+					if sub, ok := nn.Underlying().(*types.Struct); ok {
+						walk(sub, depth+1)
+					}
+				}
+			}
+		}
+	}
+	walk(st, 0)
+	for _, fld := range found {
+		if fld.Name() == name {
+			return fld
+		}
+	}
+	if len(found) == 1 {
+		return found[0]
+	}
+	c.Errorf("anchor: %s.%s: %d fields fit the role %q (%s)", rel, typ, len(found), role, name)
+	return nil
+}
+
+func c20NamedIs(t types.Type, pkgPath, name string) bool {
+	if p, ok := t.(*types.Pointer); ok {
+		t = p.Elem()
+	}
+	n, ok := t.(*types.Named)
+	return ok && n.Obj().Name() == name && n.Obj().Pkg() != nil && n.Obj().Pkg().Path() == pkgPath
+}
+
+// c20IsEntityMap: map[string]*supervisor.ObjectEntity.
+func c20IsEntityMap(t types.Type) bool {
+	m, ok := t.Underlying().(*types.Map)
+	return ok && c20IsEntityPtr(m.Elem())
+}
+
+func c20IsMutex(t types.Type) bool {
+	return c20NamedIs(t, "sync", "Mutex") || c20NamedIs(t, "sync", "RWMutex")
+}
+
+func c20EntitiesField(c *core.Ctx, typ string) *types.Var {
+	return c20RoleField(c, c20sv, typ, "entities", "name → entity bookkeeping map", false, c20IsEntityMap)
+}
+
+func c20EventChanField(c *core.Ctx) *types.Var {
+	return c20RoleField(c, c20sv, "ObjectEntityWatcher", "eventChan", "channel of watcher events", false, func(t types.Type) bool {
+		ch, ok := t.Underlying().(*types.Chan)
+		return ok && c20NamedIs(ch.Elem(), Mod+c20sv, "ObjectEntityWatcherEvent")
+	})
+}
+
+func c20SnapshotChanField(c *core.Ctx) *types.Var {
+	return c20RoleField(c, c20sv, "ObjectRegistry", "configSyncChan", "channel of configuration snapshots", true, func(t types.Type) bool {
+		ch, ok := t.Underlying().(*types.Chan)
+		if !ok {
+			return false
+		}
+		m, ok := ch.Elem().Underlying().(*types.Map)
+		if !ok {
+			return false
+		}
+		k, kok := m.Key().Underlying().(*types.Basic)
+		e, eok := m.Elem().Underlying().(*types.Basic)
+		return kok && eok && k.Kind() == types.String && e.Kind() == types.String
+	})
+}
+
+func c20TCMutexField(c *core.Ctx) *types.Var {
+	return c20RoleField(c, c20tc, "TrafficController", "mutex", "mutex guarding the namespaces", false, c20IsMutex)
+}
+
+func c20TCNamespacesField(c *core.Ctx) *types.Var {
+	return c20RoleField(c, c20tc, "TrafficController", "namespaces", "name → namespace map", false, func(t types.Type) bool {
+		m, ok := t.Underlying().(*types.Map)
+		return ok && c20NamedIs(m.Elem(), Mod+c20tc, "Namespace")
+	})
 }
